@@ -2,6 +2,8 @@ package main
 
 import (
 	"fmt"
+	"github.com/pip-services3-gox/pip-services3-expressions-gox/calculator/parsers"
+	"github.com/pip-services3-gox/pip-services3-expressions-gox/tokenizers"
 	"os"
 	"path/filepath"
 	"sort"
@@ -112,6 +114,8 @@ type c19subject struct {
 	fns  []*functions.DefaultFunctionCollection
 }
 
+var c19safe = false
+
 func c19values(p int) map[string]*variants.Variant {
 	return map[string]*variants.Variant{
 		"a": variants.VariantFromInteger(10*p + 1), "b": variants.VariantFromInteger(p + 2), "c": variants.VariantFromDouble(float64(p) + 0.5),
@@ -127,6 +131,9 @@ func newC19subject(what, text string, procs int) (*c19subject, error) {
 	if what == "calc" {
 		s.calc = calculator.NewExpressionCalculator()
 		s.calc.SetAutoVariables(false)
+		if c19safe {
+			s.calc.SetVariantOperations(variants.NewTypeSafeVariantOperations())
+		}
 		if err := s.calc.SetExpression(text); err != nil {
 			return nil, err
 		}
@@ -517,10 +524,16 @@ func execRace(in Ev) []Ev {
 	off := &gater{off: true}
 	c19tmplGate.Store(nil)
 	switch mode {
-	case "shared-calculator", "shared-template":
+	case "shared-calculator", "shared-template", "shared-calculator-safe":
 		what, text := "calc", "a + b * c - d + Sum(a, b, Min(c, d)) + arr[1]"
 		if mode == "shared-template" {
 			what, text = "tmpl", "Hello {{A}}{{#b}} [{{{C}}}]{{/b}}{{^d}} none{{/d}}!"
+		}
+		if mode == "shared-calculator-safe" {
+			// the type-safe operations manager installed: widening conversions of every kind inside the shared evaluation
+			text = "(d + a) + (c + a) * (c + d) + (f + a) + (c + f) + (d + b)"
+			c19safe = true
+			defer func() { c19safe = false }()
 		}
 		// the sequential results come from a separate fresh instance
 		fs, err := newC19subject(what, text, gor)
@@ -560,18 +573,55 @@ func execRace(in Ev) []Ev {
 		for i, x := range inputs {
 			want[i] = fmt.Sprint(tokJSON(newTokenizer("expression").TokenizeBuffer(x)))
 		}
+		// sequentially established: the program each goroutine's expression compiles to
+		exprOf := func(p int) string { return "a + b * (c - " + fmt.Sprint(p) + ") + Max(a, 'x', 2.5)" }
+		wantRpn := make([]string, gor+1)
+		for p := 1; p <= gor; p++ {
+			fp := parsers.NewExpressionParser()
+			fp.ParseString(exprOf(p))
+			wantRpn[p] = fmt.Sprint(rpnJSON(fp.ResultTokens()))
+		}
 		for p := 1; p <= gor; p++ {
 			wg.Add(1)
 			go func(p int) {
 				defer wg.Done()
 				tk := newTokenizer("expression")
 				gt := newTokenizer("generic")
+				// its own parser, CSV tokenizer, quote states and operation managers as well
+				ownParser := parsers.NewExpressionParser()
+				ownCsv := newTokenizer("csv")
+				csvText := "a,\"q\"\"r, s\",\"" + strings.Repeat("x", p) + "\"\r\n\"2\",b\n"
+				csvWant := fmt.Sprint(tokJSON(newTokenizer("csv").TokenizeBuffer(csvText)))
+				qs := []tokenizers.IQuoteState{quoteState("generic"), quoteState("expression"), quoteState("csv")}
+				safe, unsafe := variants.NewTypeSafeVariantOperations(), variants.NewTypeUnsafeVariantOperations()
 				s, _ := newC19subject("calc", "a + b * c - d", 1)
 				t, _ := newC19subject("tmpl", "x{{A}}y{{#b}}z{{/b}}", 1)
 				r0, t0 := s.eval(1, off), t.eval(1, off)
 				for i := 0; i < iters; i++ {
 					x := inputs[(i+p)%len(inputs)]
-					if fmt.Sprint(tokJSON(tk.TokenizeBuffer(x))) != want[(i+p)%len(inputs)] || len(gt.TokenizeBuffer("a <= b <> -1.5")) != 10 ||
+					bad := false
+					if err := ownParser.ParseString(exprOf(p)); err != nil || fmt.Sprint(rpnJSON(ownParser.ResultTokens())) != wantRpn[p] {
+						bad = true
+					}
+					if fmt.Sprint(tokJSON(ownCsv.TokenizeBuffer(csvText))) != csvWant {
+						bad = true
+					}
+					for _, q := range qs {
+						txt := "it's \"" + fmt.Sprint(p, i) + "\""
+						if q.DecodeString(q.EncodeString(txt, '"'), '"') != txt {
+							bad = true
+						}
+					}
+					if v, err := safe.Convert(variants.VariantFromInteger(p), variants.Long); err != nil || v.Type() != variants.Long || v.AsLong() != int64(p) {
+						bad = true
+					}
+					if _, err := safe.Convert(variants.VariantFromLong(int64(p)), variants.Integer); err == nil {
+						bad = true
+					}
+					if v, err := unsafe.Convert(variants.VariantFromLong(int64(p*1000+i%7)), variants.String); err != nil || v.AsString() != fmt.Sprint(p*1000+i%7) {
+						bad = true
+					}
+					if bad || fmt.Sprint(tokJSON(tk.TokenizeBuffer(x))) != want[(i+p)%len(inputs)] || len(gt.TokenizeBuffer("a <= b <> -1.5")) != 10 ||
 						s.eval(1, off) != r0 || t.eval(1, off) != t0 {
 						mu.Lock()
 						mismatch++
@@ -621,7 +671,7 @@ func genC19(g *Gen) {
 	}
 	if g.Part == "race" {
 		gor, iters := g.Pick(8, 16), g.Pick(300, 3000)
-		for _, mode := range []string{"shared-calculator", "shared-template", "separate-instances"} {
+		for _, mode := range []string{"shared-calculator", "shared-template", "separate-instances", "shared-calculator-safe"} {
 			g.Run("free-running goroutines: "+mode, []Ev{{"op": "race", "mode": mode, "goroutines": gor, "iters": iters}})
 		}
 		return
